@@ -10,14 +10,16 @@ from props import common as K
 
 META = {
     "level": "other",
+    "technique": "static analysis of type-checked MIR (rustc_private driver): abstract-interpretation tables vs spec regions, construction-site enumeration, projection agreement of Eq/Ord/Hash, step-table extraction of the merge iterators",
     "explanation": "Abstract-interpretation tables for FamilyAndLen::new_v4/new_v6/len/is_v4, MaxLenPrefix::new/"
                    "saturating_new/resolved_max_len compared with the spec for every input region; construction-site "
                    "enumeration for FamilyAndLen, Prefix, MaxLenPrefix and SmallAsnSet (every safe constructor goes through "
                    "the checks / sort+dedup); host-bits guards and provenance in the Prefix constructors; the decoder guard "
                    "that justifies the one unsafe SmallAsnSet constructor call; Eq/Ord/Hash of RouteOrigin read exactly the "
-                   "same projections; shift sites enumerated.",
+                   "same projections; shift sites enumerated; the step table of each of the four merge iterators (what is "
+                   "advanced / yielded for every combination of heads and their order) equals the table of its set operation.",
     "not_decided": ["covers ⇔ range inclusion (128-bit mask arithmetic)", "totality/transitivity of Ord",
-                    "correctness of the merge iterators (loops over runtime sequences)", "text round trip as value identity"],
+                    "correctness of the merge iterators beyond their single-step tables (that the inputs are ascending)", "text round trip as value identity"],
     "trusted_base": ["std sort/dedup/binary_search", "derive(PartialEq, Hash) compare/hash all fields"],
 }
 
